@@ -60,15 +60,9 @@ def main():
     from .kernels import set_capacity
 
     set_capacity(2)
-    orig = porc.cachable_tensor_method
+    from .common import hook_kernel_entry
 
-    def wrapped(problem, backend):
-        tm = orig(problem, backend)
-        if not isinstance(tm._evaluate, Window):
-            tm._evaluate = Window(tm._evaluate)
-        return tm
-
-    porc.cachable_tensor_method = wrapped
+    hook_kernel_entry(lambda tm, inner: Window(inner))
 
     A = Tensor.from_dok({(0, 1): 2.0, (1, 2): 3.0, (2, 0): 1.5}, dimensions=(3, 3), format="ds")
     x = Tensor.from_lol([1.0, 2.0, 4.0])
@@ -83,7 +77,6 @@ def main():
     reordered = TensorMethod(Problem(parse_assignment("y(i) = A(i,j) * x(j)").unwrap(),
                                      {"A": parse_format("ds").unwrap(), "x": parse_format("d").unwrap(),
                                       "y": parse_format("s").unwrap()}))
-    reordered._evaluate = Window(reordered._evaluate)
 
     def make(kind):
         if kind == "reordered":
